@@ -78,12 +78,41 @@ def _recurrence(arrivals, draws, loss, t0=F(0)):
     return out
 
 
+# ------------------------------------------------------------------------------------------------
+# second tie (DESIGN 2.6): Wire.put translated from the tree under test on every run (vlib/translate.py, fail closed)
+# into coq/Gen/Extracted_wire.v; bridged to the WPut step of Elem/Wire.v by coq/Elem/WireBridge.v; obligations in
+# Props/C10_Bridge.v.
+
+WIRE_CONS = [("FxStampCurrent", "(t : Q)"),          # packet.current_time = t
+             ("FxStorePut", "")]                     # self.store.put(packet)
+WIRE_FX = [("packet.current_time = _1", "FxStampCurrent", ["Q"]), ("self.store.put(packet)", "FxStorePut", [])]
+WIRE_READS = [("self.debug", "debug", "bool"), ("self.env.now", "now", "Q")]
+
+
+def extracted_wire(repo):
+    import os
+    from vlib import translate as tr
+    spec = tr.FnSpec(os.path.join(repo, "onl", "netdev", "wire.py"), "Wire", "put", "gen_Wire_put", reads=WIRE_READS,
+                     effects=WIRE_FX)
+    return tr.gen_module("onl/netdev/wire.py: Wire.put", "wire_st", "w_", [("packets_rec", "Z")], "wire_fx", WIRE_CONS, [spec])
+
+
 class WirePart:
     name = "wire"
     kinds = ["wire", "cable"]
     serves = ["C10", "C08"]
     coq_imports = ["From ONL Require Import Base.Cmp Elem.Packet Elem.StoreQ Elem.Wire Elem.Cable."]
-    props_files = {"C10": ["Props/C10.v"], "C08": ["Props/C08_Wire.v"]}
+    props_files = {"C10": ["Props/C10.v", "Props/C10_Bridge.v"], "C08": ["Props/C08_Wire.v"]}
+
+    # ---- second tie: regenerate the translated body before the Coq build (fail closed) ----------------
+    def pre_build(self, prop_id):
+        if prop_id != "C10":
+            return
+        import os
+        from vlib import framework as fw
+        from vlib import translate as tr
+        tr.write_if_changed(os.path.join(fw.COQ, "Gen", "Extracted_wire.v"), extracted_wire(fw.REPO))
+
     weight = 1
     nontrivial_rule = {
         "C10": ("kind 'wire' (70%): random bursty workloads from 1-3 driver processes on a dyadic time lattice (arrivals coincide "
@@ -98,7 +127,10 @@ class WirePart:
         "C10": ["random.uniform and delay_dist are replaced by scripted sequences (the wire's own code is untouched)",
                 "float rounding is outside the theorems: generated times/delays are dyadic so every float the wire computes is exact",
                 "cable: the generator objects of the two run() processes are renamed run1/run2 so that the harness can tell their "
-                "Initialize/Timeout events apart"],
+                "Initialize/Timeout events apart",
+                "vlib/translate.py (Python ast, fail closed; tables above the part class in props/part_wire.py) regenerates "
+                "coq/Gen/Extracted_wire.v from Wire.put of the tree under test before every build; C10_gen_wire_put "
+                "(Props/C10_Bridge.v) bridges it to the WPut step of the hand-written model; print() calls are ignored"],
         "C08": ["packet identity is the Python object identity recorded by the harness taps (uid = creation index)"],
     }
     assumptions = {
